@@ -16,6 +16,7 @@ import (
 	"sort"
 	"strings"
 	"sync"
+	"sync/atomic"
 	"time"
 
 	"github.com/dgraph-io/badger/v4"
@@ -470,8 +471,10 @@ func (s *sdRun) compactAndCheck(op SDOp) (int, error) {
 		writerIn := make(chan struct{})
 		writerDone := make(chan struct{})
 		var once, onceW sync.Once
+		var started int32
 		vh.OnPoint("compact.beforeFlush", 0, func(name string, hit int64) {
 			once.Do(func() {
+				atomic.StoreInt32(&started, 1)
 				go func() {
 					defer close(writerDone)
 					if err := StoreBatch(s.core, op.DS, racing, false); err != nil {
@@ -494,6 +497,14 @@ func (s *sdRun) compactAndCheck(op SDOp) (int, error) {
 		defer vh.Clear("compact.beforeFlush")
 		defer vh.Clear("ds.store.afterIDCommit")
 		waitWriter = func() {
+			if atomic.LoadInt32(&started) == 0 {
+				// the compaction had nothing to flush: the write simply follows it
+				if err := StoreBatch(s.core, op.DS, racing, false); err != nil {
+					s.viol("C12", "racing-writer-error", err.Error(), nil, nil)
+				}
+				s.ctx.Out.Stat("c12_racing_writes_after_a_compaction_without_flush", 1)
+				return
+			}
 			select {
 			case <-writerDone:
 			case <-time.After(10 * time.Second):
